@@ -614,7 +614,7 @@ func (e *explorer) explore(keys, probes, vals []object.Object, operands []op, ma
 			queue = append(queue, node{n0, nil})
 		}
 	}
-	for len(queue) > 0 {
+	for len(queue) > 0 && len(c.Failures) < 2000 { // a broken tree explodes the state space: stop once the failure list is full
 		nd := queue[0]
 		queue = queue[1:]
 		states++
@@ -804,8 +804,9 @@ func runC11(c *Ctx) {
 	// keys: 5 (quick) or 7 (thorough) distinct key classes of mixed types
 	keys := musts("I1", "F3ff8000000000000", "S61", "N", "A[I1]")
 	probes := musts("F3ff0000000000000", "I9") // 1.0: same class as 1; 9: never stored... unless set through it
-	maxStates := 100000
+	maxStates := 5000 // the quick universe has 1348 reachable states, the thorough one 9220: the caps only bound a broken tree
 	if c.Thorough() {
+		maxStates = 40000
 		keys = append(keys, musts("B1", "I2")...)
 	}
 	vals := musts("I7", "S78")
@@ -834,7 +835,7 @@ func runC11(c *Ctx) {
 		seqs, length = 3000, 120
 	}
 	e.doSource = true
-	for i := 0; i < seqs; i++ {
+	for i := 0; i < seqs && len(c.Failures) < 2000; i++ {
 		e.randomSeq(pool, rvals, length)
 	}
 	var ds []string
